@@ -137,6 +137,7 @@ pub fn run(a: &Args) -> Option<Report> {
 }
 
 fn run_seq(a: &Args) -> Report {
+    rt::quiet_panics();
     let mut rep = Report::new("C06", &a.leg, a.seed);
     let mut r = Rng::new(a.shard_seed());
     let hists = a.budget(1200, 120_000);
@@ -241,7 +242,30 @@ fn run_seq(a: &Args) -> Report {
                         dead.insert(id);
                     }
                 }
-                17 if r.chance(1, 4) => {
+                17 if r.chance(1, 2) => {
+                    // the caller's closure panics (caught by the caller): on the creating path this happens while the
+                    // registry holds the shard's write guard; the entry was inserted before and must stay a normal one
+                    let res = rt::catch(|| match kind {
+                        0 => reg.get_or_create_counter(&key, |_| -> u64 { panic!("op panics") }),
+                        1 => reg.get_or_create_gauge(&key, |_| -> u64 { panic!("op panics") }),
+                        _ => reg.get_or_create_histogram(&key, |_| -> u64 { panic!("op panics") }),
+                    });
+                    let _ = res;
+                    trace.push(format!("goc kind{} {:?} with a panicking closure", kind, d));
+                    if !model.contains_key(&(kind, canon.clone())) {
+                        // learn the id of the storage that was created
+                        match get(&reg, kind, &key) {
+                            Some(id) => {
+                                model.insert((kind, canon.clone()), id);
+                            }
+                            None => {
+                                fail(&mut rep, "C06:get-disagrees", "after a get_or_create whose closure panicked the entry is not retrievable".into(), &trace);
+                                failed = true;
+                            }
+                        }
+                    }
+                }
+                17 if r.chance(1, 2) => {
                     reg.clear();
                     trace.push("clear".into());
                     for (_, id) in std::mem::take(&mut model) {
